@@ -276,6 +276,34 @@ type pkgInfo struct {
 	imports []string                               // rel of imported module packages
 	pkgRefs map[types.Object]bool                  // every module function / named type the package mentions
 	fnRefs  map[types.Object]map[types.Object]bool // declared function -> module functions / named types it mentions
+	readers     []string        // io.Reader implementations: methods `T.Read` with signature ([]byte) (int, error)
+	readerBytes map[string]bool // integer / character constants <= 255 in their bodies (2 hex digits)
+}
+
+// isReaderMethod: a method named Read with the signature of io.Reader
+func isReaderMethod(info *types.Info, fd *ast.FuncDecl) bool {
+	if fd.Recv == nil || fd.Name.Name != "Read" {
+		return false
+	}
+	fn, ok := info.Defs[fd.Name].(*types.Func)
+	if !ok {
+		return false
+	}
+	sig, ok := fn.Type().(*types.Signature)
+	if !ok || sig.Params().Len() != 1 || sig.Results().Len() != 2 {
+		return false
+	}
+	sl, ok := under(sig.Params().At(0).Type()).(*types.Slice)
+	if !ok {
+		return false
+	}
+	if b, ok := under(sl.Elem()).(*types.Basic); !ok || b.Kind() != types.Uint8 {
+		return false
+	}
+	if b, ok := under(sig.Results().At(0).Type()).(*types.Basic); !ok || b.Kind() != types.Int {
+		return false
+	}
+	return types.TypeString(sig.Results().At(1).Type(), nil) == "error"
 }
 
 func under(t types.Type) types.Type {
@@ -687,7 +715,7 @@ func main() {
 		if !(strings.HasPrefix(rel, "format") || strings.HasPrefix(rel, "internal/")) || strings.HasPrefix(rel, "internal/verifharness") {
 			continue
 		}
-		pi := &pkgInfo{rel: rel, pkgRefs: map[types.Object]bool{}, fnRefs: map[types.Object]map[types.Object]bool{}}
+		pi := &pkgInfo{rel: rel, pkgRefs: map[types.Object]bool{}, fnRefs: map[types.Object]map[types.Object]bool{}, readerBytes: map[string]bool{}}
 		for _, f := range l.files[dir] {
 			collectRefs(l, info, f, pi.pkgRefs)
 		}
@@ -708,6 +736,21 @@ func main() {
 				switch x := d.(type) {
 				case *ast.FuncDecl:
 					if x.Body != nil {
+						if isReaderMethod(info, x) {
+							pi.readers = append(pi.readers, recvName(x))
+							ast.Inspect(x.Body, func(n ast.Node) bool {
+								if e, ok := n.(ast.Expr); ok {
+									if _, isLit := e.(*ast.BasicLit); isLit {
+										if tv, ok := info.Types[e]; ok && tv.Value != nil && tv.Value.Kind() == constant.Int {
+											if v, ok := constant.Uint64Val(tv.Value); ok && v <= 255 {
+												pi.readerBytes[fmt.Sprintf("%02x", v)] = true
+											}
+										}
+									}
+								}
+								return true
+							})
+						}
 						sc.owner = info.Defs[x.Name]
 						sc.scanFunc(recvName(x), x.Body)
 						refs := map[types.Object]bool{}
@@ -835,6 +878,10 @@ func main() {
 		Total       int            `json:"total"`
 		Hash        string         `json:"hash"`
 		ClosureHash string         `json:"closure_hash"`
+		Readers     []string       `json:"readers"`
+		ReaderSites int            `json:"reader_sites"`
+		ReaderHash  string         `json:"reader_hash"`
+		ReaderBytes []string       `json:"reader_bytes"`
 	}
 	var rows []row
 	for _, rel := range rels {
@@ -861,6 +908,26 @@ func main() {
 		}
 		r.Total = len(all)
 		r.ClosureHash = hashSites(all)
+		// the io.Reader implementations of the package and the sites inside them (closures included)
+		r.Readers = append([]string{}, pi.readers...)
+		sort.Strings(r.Readers)
+		var rs []site
+		for _, s := range pi.sites {
+			for _, rd := range pi.readers {
+				if s.fn == rd || strings.HasPrefix(s.fn, rd+".func") {
+					rs = append(rs, s)
+				}
+			}
+		}
+		r.ReaderSites = len(rs)
+		r.ReaderBytes = []string{}
+		for b := range pi.readerBytes {
+			r.ReaderBytes = append(r.ReaderBytes, b)
+		}
+		sort.Strings(r.ReaderBytes)
+		if len(r.Readers) > 0 {
+			r.ReaderHash = hashSites(append(rs, site{fn: strings.Join(r.Readers, ",")}))
+		}
 		rows = append(rows, r)
 	}
 
@@ -926,5 +993,23 @@ func main() {
 	}
 	fmt.Fprintf(w, "/-- formats whose package and helper closure have no site at all (%d of %d formats; %d sites in %d packages) -/\n", len(free), nf, ns, len(rows))
 	fmt.Fprintf(w, "def siteFreeFormats : List String := [%s]\n\n", strings.Join(free, ", "))
+	fmt.Fprintln(w, "/-- io.Reader implementations below format/ and internal/ (`T.Read([]byte) (int, error)`): package, method, fault-capable")
+	fmt.Fprintln(w, "    sites inside it. A decoder that reads through one of them sees its input in CHUNKS (FqModel/ReadChunks.lean). -/")
+	fmt.Fprintln(w, "def readerMethods : List (String × String × Nat) := [")
+	var rls []string
+	for _, r := range rows {
+		for _, rd := range r.Readers {
+			n := 0
+			for _, s := range pkgs[r.Pkg].sites {
+				if s.fn == rd || strings.HasPrefix(s.fn, rd+".func") {
+					n++
+				}
+			}
+			rls = append(rls, fmt.Sprintf("  (%s, %s, %d)", leanStr(r.Pkg), leanStr(rd), n))
+		}
+	}
+	fmt.Fprintln(w, strings.Join(rls, ",\n"))
+	fmt.Fprintln(w, "]")
+	fmt.Fprintln(w)
 	fmt.Fprintln(w, "end FqModel.Gen.DecoderSites")
 }
